@@ -164,7 +164,7 @@ def run_chain(rng, counters, violations):
         src = live[src_i]
         kind = rng.choice(["rows", "rows2", "cols", "cols_str", "select", "add", "mul", "concat", "copy", "t", "head",
                            "tail", "reverse", "setcol", "newcol", "setcell", "new", "colexpr", "delcol", "pop", "neg",
-                           "at", "iter", "badset", "ragged"])
+                           "at", "iter", "badset", "ragged", "newentry"])
         real_cols = [c for c in src._col_names]
         desc = kind
         snap = snapshot(src)
@@ -225,6 +225,16 @@ def run_chain(rng, counters, violations):
                 c = "w%d" % step
                 desc = "#%d[%r] = new column" % (src_i, c)
                 src[c] = np.zeros(len(src))
+            elif kind == "newentry":
+                # a sized value whose length differs from the row count is a scalar ENTRY, never a column
+                n_ = len(src)
+                val = rng.choice([(1.0, 2.0, 3.0)[:(2 if n_ != 2 else 3)], [0.5] * (n_ + 1), "x" * (n_ + 2), np.arange(n_ + 1, dtype=float), 3.5])
+                key_ = "e%d" % step
+                desc = "#%d[%r] = %s (not a column)" % (src_i, key_, type(val).__name__)
+                src[key_] = val
+                if key_ in src._col_names:
+                    violations.append({"what": "C14 %s: the entry became a listed column (row count %d)" % (desc, n_), "log": list(log)})
+                    return derived_ok
             elif kind == "setcell":
                 if len(src) and "x" in real_cols:
                     desc = "#%d['x', k] = v" % src_i
@@ -343,13 +353,17 @@ def run_chain(rng, counters, violations):
                         return derived_ok
                     out = sub
         except Exception as exc:
+            if isinstance(exc, (NameError, UnboundLocalError, AttributeError)):
+                # an operation on generated input may be rejected (ValueError, KeyError, IndexError, TypeError), not like this
+                violations.append({"what": "C14 %s raised %s: %s" % (desc, type(exc).__name__, str(exc)[:150]), "log": list(log)})
+                return derived_ok
             counters.setdefault("exceptions", {})
             key = "%s:%s" % (kind, type(exc).__name__)
             counters["exceptions"][key] = counters["exceptions"].get(key, 0) + 1
             out = None
             desc += " -> raised %s" % type(exc).__name__
         log.append(desc)
-        is_derivation = kind not in ("setcol", "newcol", "setcell", "delcol", "new", "pop", "append", "badset", "ragged")
+        is_derivation = kind not in ("setcol", "newcol", "setcell", "delcol", "new", "pop", "append", "badset", "ragged", "newentry")
         if is_derivation:
             counters["derivations_with_source_snapshot"] = counters.get("derivations_with_source_snapshot", 0) + 1
             why = same_snapshot(snap, snapshot(src))
